@@ -618,7 +618,11 @@ class DataLinkConnection(TransmissionControlObject):
         if rcvd_pdu.name not in self.DLC_PDU_NAMES:
             self.err("non connection mode pdu on data link connection")
             send_pdu = pdu.FrameReject.from_pdu(rcvd_pdu, flags="W", dlc=self)
-            self.close()
+            with self.lock:
+                # shut down without the DISC/DM handshake, close() would
+                # otherwise wait for a DM PDU in the llc thread itself
+                self.state.SHUTDOWN = True
+                self.close()
             self.send_queue.append(send_pdu)
             return
 
